@@ -1,5 +1,5 @@
 """Registry: which suites, oracles and trusted-base notes belong to which property."""
-from suites import gens, system, tower, timing, parsing
+from suites import gens, system, tower, timing, parsing, conc
 
 
 def c01_suites(tier):
@@ -79,6 +79,10 @@ def c18_suites(tier):
     return [parsing.ParseSuite(), gens.PNStringSuite(), gens.StartRowSuite()]
 
 
+def c19_suites(tier):
+    return [system.ServerSuite(), conc.ConcSuite(), timing.SpeedChangeSuite(), system.GateSuite()]
+
+
 PROPS = {
     "C01": {"suites": c01_suites},
     "C02": {"suites": c02_suites},
@@ -98,5 +102,6 @@ PROPS = {
     "C16": {"suites": c16_suites},
     "C17": {"suites": c17_suites},
     "C18": {"suites": c18_suites},
+    "C19": {"suites": c19_suites},
     "C20": {"suites": c20_suites},
 }
